@@ -1,7 +1,10 @@
 """AliasPrinter prints `not True` inside a dataclass field specifier as `notTrue`.
 
 Exit status 1 = defect present, 0 = absent, 2 = inconclusive (preconditions of the input failed).
-Mechanism keys: stub-typecheck:parse-only:name-defined:name-unknown-to-source, stub-typecheck:semantic:name-defined:name-unknown-to-source"""
+Mechanism keys:
+  stub-typecheck:parse-only:name-defined:name-unknown-to-source
+  stub-typecheck:semantic:name-defined:name-unknown-to-source
+"""
 import os
 import sys
 
